@@ -154,10 +154,30 @@ def _weights(case, P: int) -> np.ndarray:
     return rng.integers(-8, 9, size=P).astype(np.float64) / 8.0
 
 
+def _regkw(kind: str, hp: dict, inplace: bool, kw_tensor: bool = False, delayed: bool = False) -> dict:
+    """register_cell keyword arguments that carry the real hyperparameters (per-cell override)."""
+    from inferno.functional import exp_stdp_post_kernel, exp_stdp_pre_kernel
+
+    if kind in KERNEL:
+        def kw(lr, tc):
+            if kw_tensor:
+                return {"learning_rate": torch.tensor(float(lr)), "time_constant": float(tc)}
+            return {"learning_rate": float(lr), "time_constant": float(tc)}
+
+        out = dict(kernel_post=exp_stdp_post_kernel, kernel_pre=exp_stdp_pre_kernel,
+                   kernel_post_kwargs=kw(hp["lr_pos"], hp["tc_pos"]),
+                   kernel_pre_kwargs=kw(hp["lr_neg"], hp["tc_neg"]), inplace=inplace)
+        if kind == "KSTDP":
+            out["delayed"] = delayed
+        return out
+    return dict(lr_pos=hp["lr_pos"], lr_neg=hp["lr_neg"], tc_pos=hp["tc_pos"], tc_neg=hp["tc_neg"],
+                inplace=inplace)
+
+
 def _mk_trainer(kind: str, hp: dict, reduction, inplace: bool, override: bool,
                 kw_tensor: bool = False, delayed: bool = False):
-    """hp = dict(lr_pos, lr_neg, tc_pos, tc_neg) with the meaning of RULE[kind].
-    Returns (trainer, register kwargs)."""
+    """hp = dict(lr_pos, lr_neg, tc_pos, tc_neg) with the meaning of RULE[kind].  With ``override``
+    the constructor gets decoy defaults and every cell must be registered with _regkw(...)."""
     from inferno.functional import exp_stdp_post_kernel, exp_stdp_pre_kernel
     from inferno.learn import (DelayAdjustedKernelSTDP, DelayAdjustedKernelSTDPD,
                                DelayAdjustedMSTDP, DelayAdjustedMSTDPD, DelayAdjustedSTDP,
@@ -167,48 +187,39 @@ def _mk_trainer(kind: str, hp: dict, reduction, inplace: bool, override: bool,
     if kind in KERNEL:
         cls = {"DAKSTDP": DelayAdjustedKernelSTDP, "DAKSTDPD": DelayAdjustedKernelSTDPD,
                "KSTDP": KernelSTDP}[kind]
-
-        def kw(lr, tc):
-            if kw_tensor:
-                return {"learning_rate": torch.tensor(float(lr)), "time_constant": float(tc)}
-            return {"learning_rate": float(lr), "time_constant": float(tc)}
-
-        real = dict(kernel_post=exp_stdp_post_kernel, kernel_pre=exp_stdp_pre_kernel,
-                    kernel_post_kwargs=kw(hp["lr_pos"], hp["tc_pos"]),
-                    kernel_pre_kwargs=kw(hp["lr_neg"], hp["tc_neg"]))
-        extra = {"delayed": delayed} if kind == "KSTDP" else {}
         if override:
             decoy = dict(kernel_post=exp_stdp_pre_kernel, kernel_pre=exp_stdp_post_kernel,
                          kernel_post_kwargs={"learning_rate": 0.123, "time_constant": 7.0},
                          kernel_pre_kwargs={"learning_rate": -0.321, "time_constant": 9.0})
-            tr = cls(**decoy, batch_reduction=red, inplace=not inplace,
-                     **({"delayed": not delayed} if kind == "KSTDP" else {}))
-            return tr, dict(real, inplace=inplace, **extra)
-        return cls(**real, batch_reduction=red, inplace=inplace, **extra), {}
+            return cls(**decoy, batch_reduction=red, inplace=not inplace,
+                       **({"delayed": not delayed} if kind == "KSTDP" else {}))
+        real = _regkw(kind, hp, inplace, kw_tensor, delayed)
+        return cls(**real, batch_reduction=red)
     cls = {"DASTDP": DelayAdjustedSTDP, "DASTDPD": DelayAdjustedSTDPD,
            "DAMSTDP": DelayAdjustedMSTDP, "DAMSTDPD": DelayAdjustedMSTDPD}[kind]
-    real = dict(lr_pos=hp["lr_pos"], lr_neg=hp["lr_neg"], tc_pos=hp["tc_pos"], tc_neg=hp["tc_neg"])
     if override:
-        tr = cls(lr_pos=0.123, lr_neg=-0.321, tc_pos=7.0, tc_neg=9.0, batch_reduction=red,
-                 inplace=not inplace)
-        return tr, dict(real, inplace=inplace)
-    return cls(**real, batch_reduction=red, inplace=inplace), {}
+        return cls(lr_pos=0.123, lr_neg=-0.321, tc_pos=7.0, tc_neg=9.0, batch_reduction=red,
+                   inplace=not inplace)
+    return cls(**_regkw(kind, hp, inplace), batch_reduction=red)
 
 
 class _Cell:
-    """One Serial(connection, ExactNeuron) layer with one trainer registered on its cell."""
+    """One Serial(connection, ExactNeuron) layer whose cell is registered on a trainer (its own, or
+    a trainer shared with other cells)."""
 
     def __init__(self, case, kind: str, hp: dict, *, dmax_steps, reduction, delays: np.ndarray | None,
-                 delayed: bool = False, override: bool = False, kw_tensor: bool = False):
+                 delayed: bool = False, override: bool = False, kw_tensor: bool = False,
+                 trainer=None, name: str = "cell"):
         from inferno.extra import ExactNeuron
         from inferno.neural import Serial
 
-        self.kind, self.pname = kind, PARAM[kind]
+        self.kind, self.pname, self.name = kind, PARAM[kind], name
         dt, B = case["dt"], case["B"]
         self.dt, self.B = dt, B
         self.ins, self.outs, self.pairs, self.pshape, self.mask = _geometry(case["conn"])
         self.P = self.pairs.shape[0]
         self.dmax = None if dmax_steps is None else dmax_steps * dt
+        self.via = case.get("upd_via", "connection")
         inplace = bool(case.get("inplace", False))
         with impl(f"construct {kind} cell"):
             self.conn = _mk_conn(case["conn"], dt, self.dmax, B, inplace)
@@ -219,16 +230,23 @@ class _Cell:
             self.conn.weight = torch.tensor(_weights(case, self.P).reshape(self.pshape), dtype=dtype)
             if self.dmax is not None and delays is not None:
                 self.conn.delay = torch.tensor(delays.reshape(self.pshape), dtype=dtype)
-            self.trainer, regkw = _mk_trainer(kind, hp, reduction, inplace, override, kw_tensor, delayed)
-            self.trainer.register_cell("cell", self.layer.cell, **regkw)
+            if trainer is None:
+                trainer = _mk_trainer(kind, hp, reduction, inplace, override, kw_tensor, delayed)
+            self.trainer = trainer
+            regkw = _regkw(kind, hp, inplace, kw_tensor, delayed) if override else {}
+            self.trainer.register_cell(name, self.layer.cell, **regkw)
 
     # -- driving
-    def step(self, pre: np.ndarray, post: np.ndarray, signal=None, scale: float = 1.0, bool_in: bool = True):
+    def forward(self, pre: np.ndarray, post: np.ndarray, bool_in: bool = True):
         dtype = torch.bool if bool_in else torch.get_default_dtype()
         pre_t = torch.tensor(pre.reshape((self.B,) + tuple(self.ins))).to(dtype)
         post_t = torch.tensor(post.reshape((self.B,) + tuple(self.outs)))
-        with impl(f"{self.kind}: layer step + trainer()"):
+        with impl(f"{self.kind}: layer step"):
             self.layer(pre_t, neuron_kwargs={"override": post_t})
+
+    def train(self, signal=None, scale: float = 1.0):
+        """One trainer call (serves every cell registered on the trainer)."""
+        with impl(f"{self.kind}: trainer()"):
             if self.kind in THREE:
                 sig = signal
                 if isinstance(signal, (list, tuple)):
@@ -237,19 +255,24 @@ class _Cell:
             else:
                 self.trainer()
 
-    def net(self) -> np.ndarray:
-        """pos - neg of the accumulator of the trained parameter, flattened (P,)."""
+    def parts(self):
+        """(pos, neg) of the accumulator of the trained parameter, flattened (P,), None -> zeros."""
         with impl(f"{self.kind}: read updater.{self.pname}"):
             acc = getattr(self.conn.updater, self.pname)
             pos, neg = acc.pos, acc.neg
-        out = np.zeros(self.P)
-        for sgn, part in ((1.0, pos), (-1.0, neg)):
+        out = []
+        for part in (pos, neg):
             if part is None:
+                out.append(np.zeros(self.P))
                 continue
             check(tuple(part.shape) == tuple(self.pshape), "acc:shape",
                   lambda: f"{self.kind}: accumulator part shape {tuple(part.shape)} != parameter shape {self.pshape}")
-            out += sgn * part.detach().to(torch.float64).numpy().reshape(-1)
-        return out
+            out.append(part.detach().to(torch.float64).numpy().reshape(-1).copy())
+        return out[0], out[1]
+
+    def net(self) -> np.ndarray:
+        pos, neg = self.parts()
+        return pos - neg
 
     def param(self, name: str | None = None) -> np.ndarray:
         with impl("read parameter"):
@@ -266,8 +289,11 @@ class _Cell:
             self.conn.delay = torch.tensor(np.asarray(d).reshape(self.pshape), dtype=torch.get_default_dtype())
 
     def update(self):
-        with impl(f"{self.kind}: connection.update()"):
-            self.conn.update()
+        with impl(f"{self.kind}: {self.via}.update()"):
+            if self.via == "layer":
+                self.layer.update()
+            else:
+                self.conn.update()
 
 
 def _bits(masks, n: int) -> np.ndarray:
@@ -281,6 +307,28 @@ def _close(got, want, abssum, err, scale, rtol):
 
 def _hp(case) -> dict:
     return {k: case[k] for k in ("lr_pos", "lr_neg", "tc_pos", "tc_neg")}
+
+
+def _subcases(case) -> list[dict]:
+    """The cells of a case: the case itself plus case['more'] (each entry overrides connection,
+    delays, weights, history and optionally the hyperparameters; B, dt and the trainer are shared)."""
+    subs = [case]
+    for extra in case.get("more", ()):
+        sub = {k: v for k, v in case.items() if k != "more"}
+        sub.update(extra)
+        if "hp" in extra:
+            sub.update(extra["hp"])
+        subs.append(sub)
+    return subs
+
+
+def _redelay(cell: _Cell, sub: dict, stp: dict, dms) -> bool:
+    """Re-bind the connection's delay parameter before a step (``connection.delay = tensor``)."""
+    if "setd" not in stp or not dms or cell.dmax is None:
+        return False
+    tmp = dict(sub, draws=stp["setd"], dmode=stp.get("setd_mode", "grid"))
+    cell.set_delays(_delays(tmp, cell.P, dms, sub["dt"]))
+    return True
 
 
 # ------------------------------------------------------------------------------ leg: formula
@@ -309,121 +357,141 @@ def _model_step(kind, hp, reduction_eff, td, band, signal, scale):
     return net, mag.sum((0, 2)) / div, sens.sum((0, 2)) / div
 
 
-def run_formula(case) -> dict:
-    kind = case["trainer"]
-    with _default_dtype(case.get("f64", False)):
-        return _run_formula(case, kind)
+def _mixed_elements(td, mask, a_causal, a_anti) -> int:
+    """Number of existing parameter elements that, in this step, own a causal and an anti-causal
+    pair whose terms have opposite sign (so both accumulator parts are non-zero on one element)."""
+    if a_causal * a_anti >= 0:
+        return 0
+    valid = ~np.isnan(td)
+    t = np.where(valid, td, 0.0)
+    c = (valid & (t >= 0)).any((0, 2))
+    a = (valid & (t < 0)).any((0, 2))
+    return int((c & a & mask).sum())
 
 
-def _run_formula(case, kind):
-    hp = _hp(case)
-    dt, B = case["dt"], case["B"]
-    dms = case["dmax_steps"]
-    red = case["reduction"]
-    red_eff = red or ("sum" if kind in THREE else "mean")  # documented defaults
-    ins, outs, pairs, pshape, mask = _geometry(case["conn"])
-    P = pairs.shape[0]
-    d0 = np.zeros(P) if kind == "KSTDP" else _delays(case, P, dms, dt)
-    cell = _Cell(case, kind, hp, dmax_steps=dms, reduction=red, delays=d0,
-                 delayed=case.get("delayed", False), override=case.get("override", False),
-                 kw_tensor=case.get("kw_tensor", False))
-    pname = cell.pname
-    n_pre, n_post = math.prod(ins), math.prod(outs)
-    ls = M.LastSpikes(B, n_pre, n_post)
-    if kind == "KSTDP":
-        check(not np.any(cell.delays()), "setup:kstdp-delays", "KernelSTDP leg must have zero delays")
-    w_model = cell.param()             # trained parameter, model copy (float64)
-    dt_dy = M.is_dyadic(dt)
-    scale_lr = (abs(hp["lr_pos"]) + abs(hp["lr_neg"])) * pairs.shape[1] * (B if red_eff == "sum" else 1)
+class _FormulaCell:
+    """Implementation cell + its independent reference state (formula leg)."""
 
-    acc = np.zeros(P)
-    acc_abs = np.zeros(P)
-    acc_err = np.zeros(P)
-    acc_amb = np.zeros(P, dtype=bool)
-    acc_touched = np.zeros(P, dtype=bool)
-    acc_scale = 0.0
-    n_c = n_a = n_z = n_amb = n_silent = n_cmp_nz = n_upd = 0
-    for si, stp in enumerate(case["steps"]):
-        pre, post = _bits(stp["pre"], n_pre), _bits(stp["post"], n_post)
-        signal, gscale = stp.get("signal", 1.0), stp.get("scale", 1.0)
-        d_impl = cell.delays()
-        cell.step(pre, post, signal, gscale, bool_in=case.get("bool_in", True))
-        ls.step(pre, post)
-        # d(t): the delays the connection actually holds when the step is taken (one-step form:
-        # a delay-learning history never compounds a rounding residue into a different branch)
-        td, valid, band = M.tdelta(ls, pairs, dt, d_impl)
-        exact_p = np.array([dt_dy and M.is_dyadic(d_impl[p]) for p in range(P)])
+    def __init__(self, sub, kind, red, red_eff, trainer, name, override):
+        self.sub, self.kind, self.red_eff = sub, kind, red_eff
+        self.hp = _hp(sub)
+        self.dt, self.B, self.dms = sub["dt"], sub["B"], sub["dmax_steps"]
+        ins, outs, self.pairs, pshape, self.mask = _geometry(sub["conn"])
+        self.P = self.pairs.shape[0]
+        self.n_pre, self.n_post = math.prod(ins), math.prod(outs)
+        self.d0 = np.zeros(self.P) if kind == "KSTDP" else _delays(sub, self.P, self.dms, self.dt)
+        self.cell = _Cell(sub, kind, self.hp, dmax_steps=self.dms, reduction=red, delays=self.d0,
+                          delayed=sub.get("delayed", False), override=override,
+                          kw_tensor=sub.get("kw_tensor", False), trainer=trainer, name=name)
+        self.ls = M.LastSpikes(self.B, self.n_pre, self.n_post)
+        if kind == "KSTDP":
+            check(not np.any(self.cell.delays()), "setup:kstdp-delays", "KernelSTDP leg must have zero delays")
+        self.w_model = self.cell.param()          # trained parameter, model copy (float64)
+        self.dt_dy = M.is_dyadic(self.dt)
+        self.scale_lr = ((abs(self.hp["lr_pos"]) + abs(self.hp["lr_neg"])) * self.pairs.shape[1]
+                         * (self.B if red_eff == "sum" else 1))
+        P = self.P
+        self.acc, self.acc_abs, self.acc_err = np.zeros(P), np.zeros(P), np.zeros(P)
+        self.acc_amb, self.acc_touched = np.zeros(P, dtype=bool), np.zeros(P, dtype=bool)
+        self.acc_scale = 0.0
+        self.n_c = self.n_a = self.n_z = self.n_amb = self.n_silent = self.n_nz = self.n_upd = 0
+        self.n_setd = self.n_dchg = 0
+
+    def drive(self, si):
+        """Everything up to (excluding) the trainer call of step ``si``."""
+        stp = self.sub["steps"][si]
+        cell = self.cell
+        if self.kind != "KSTDP" and _redelay(cell, self.sub, stp, self.dms):
+            self.n_setd += 1
+            if cell.pname == "delay":
+                self.w_model = cell.param()
+        self.pre, self.post = _bits(stp["pre"], self.n_pre), _bits(stp["post"], self.n_post)
+        # d(t): the delays the connection holds when the step is taken (one-step form: a
+        # delay-learning history never compounds a rounding residue into a different branch)
+        self.d_impl = cell.delays()
+        cell.forward(self.pre, self.post, bool_in=self.sub.get("bool_in", True))
+
+    def judge(self, si, signal, gscale):
+        """Everything after the trainer call of step ``si``."""
+        stp = self.sub["steps"][si]
+        cell, kind, hp, mask, pairs, P = self.cell, self.kind, self.hp, self.mask, self.pairs, self.P
+        d_impl, dt = self.d_impl, self.dt
+        pname = cell.pname
+        self.ls.step(self.pre, self.post)
+        td, valid, band = M.tdelta(self.ls, pairs, dt, d_impl)
+        exact_p = np.array([self.dt_dy and M.is_dyadic(d_impl[p]) for p in range(P)])
         amb_e = valid & (np.abs(np.nan_to_num(td)) <= band) & ~exact_p[None, :, None]
         amb_p = amb_e.any((0, 2))
         if td.size <= 24:
             # model self-check: [t_delta == 0] on exact rationals of the stored floats agrees with
             # the float64 evaluation wherever the case is called decisive, and lies inside the
             # band otherwise (an oracle inconsistency is a harness error, never a violation)
-            ez = M.tdelta_exact_zero(ls, pairs, dt, d_impl)
+            ez = M.tdelta_exact_zero(self.ls, pairs, dt, d_impl)
             ex = exact_p[None, :, None]
             if (valid & ex & ((np.nan_to_num(td, nan=1.0) == 0) != ez)).any() or (valid & ~ex & ez & ~amb_e).any():
                 raise HarnessError("reference model: float64 and exact-rational t_delta == 0 disagree")
-        net, abssum, err = _model_step(kind, hp, red_eff, td, band, signal, gscale)
+        net, abssum, err = _model_step(kind, hp, self.red_eff, td, band, signal, gscale)
         gmax = (abs(gscale) * float(np.max(np.abs(signal)))) if kind in THREE else 1.0
-        acc += net
-        acc_abs += abssum
-        acc_err += err
-        acc_amb |= amb_p
-        acc_touched |= valid.any((0, 2))
-        acc_scale += scale_lr * gmax
+        self.acc += net
+        self.acc_abs += abssum
+        self.acc_err += err
+        self.acc_amb |= amb_p
+        self.acc_touched |= valid.any((0, 2))
+        self.acc_scale += self.scale_lr * gmax
         c_, a_, z_ = M.branch_counts(np.where((amb_e | ~mask[None, :, None]), np.nan, td))
-        n_c, n_a, n_z = n_c + c_, n_a + a_, n_z + z_
-        n_amb += int((amb_p & mask).sum())
+        self.n_c, self.n_a, self.n_z = self.n_c + c_, self.n_a + a_, self.n_z + z_
+        self.n_amb += int((amb_p & mask).sum())
+        acc, acc_abs, acc_err, acc_amb = self.acc, self.acc_abs, self.acc_err, self.acc_amb
 
         got = cell.net()
-        what = f"step {si} ({kind}, {case['conn']['kind']}, updater.{pname})"
-        ok, tol = _close(got, acc, acc_abs, acc_err, acc_scale, 1e-4)
+        ckind = self.sub["conn"]["kind"]
+        info = {"trainer": kind, "conn": ckind, "step": si, "cell": cell.name}
+        what = f"step {si} ({kind}, cell '{cell.name}', {ckind}, updater.{pname})"
+        ok, tol = _close(got, acc, acc_abs, acc_err, self.acc_scale, 1e-4)
         cmp = mask & ~acc_amb
         bad = cmp & ~ok
         if bad.any():
             p = int(np.argmax(bad))
-            b_td = td[:, p, :].tolist()
             raise Violation(
                 "formula:step",
                 f"{what}: pos-neg of element {p} = {got[p]!r}, documented {acc[p]!r} (tol {tol[p]:.3g}); "
-                f"t_delta[b][l]={b_td} d={d_impl[p]} dt={dt}",
-                {"trainer": kind, "conn": case["conn"]["kind"], "step": si})
+                f"t_delta[b][l]={td[:, p, :].tolist()} d={d_impl[p]} dt={dt}", info)
         # no change while a side has not spiked yet: exactly zero
-        silent = mask & ~acc_touched
+        silent = mask & ~self.acc_touched
         if silent.any():
-            n_silent += int(silent.sum())
+            self.n_silent += int(silent.sum())
             bad = silent & (got != 0)
             if bad.any():
                 p = int(np.argmax(bad))
                 raise Violation("formula:silent",
                                 f"{what}: element {p} changes by {got[p]!r} although one side of every pair "
-                                f"in its receptive field has not spiked yet",
-                                {"trainer": kind, "conn": case["conn"]["kind"], "step": si})
-        n_cmp_nz += int((cmp & (np.abs(acc) > 1e-9)).sum())
+                                f"in its receptive field has not spiked yet", info)
+        self.n_nz += int((cmp & (np.abs(acc) > 1e-9)).sum())
 
         if stp.get("update", True):
             before = cell.param()
             cell.update()
             after = cell.param()
-            n_upd += 1
-            w_model = w_model + np.where(mask, acc, 0.0)
+            self.n_upd += 1
+            self.w_model = self.w_model + np.where(mask, acc, 0.0)
+            w_model = self.w_model
             # one-step form: parameter moved by the accumulated documented change
-            ok1, tol1 = _close(after - before, np.where(mask, acc, 0.0), acc_abs, acc_err + 4e-7 * np.abs(before) + 4e-7 * np.abs(after), acc_scale, 1e-4)
+            ok1, _ = _close(after - before, np.where(mask, acc, 0.0), acc_abs,
+                            acc_err + 4e-7 * np.abs(before) + 4e-7 * np.abs(after), self.acc_scale, 1e-4)
             bad = ~acc_amb & ~ok1
             if bad.any():
                 p = int(np.argmax(bad))
                 raise Violation("formula:update",
                                 f"{what}: update() moved element {p} by {after[p] - before[p]!r}, "
-                                f"accumulated documented change {acc[p]!r}",
-                                {"trainer": kind, "conn": case["conn"]["kind"], "step": si})
+                                f"accumulated documented change {acc[p]!r}", info)
             # cumulative form: model parameter carried independently in float64
-            tolc = 1e-4 * np.abs(w_model) + 2e-6 * (n_upd + 1) * max(1.0, acc_scale, float(np.max(np.abs(w_model)))) + acc_err
+            tolc = (1e-4 * np.abs(w_model) + acc_err
+                    + 2e-6 * (self.n_upd + 1) * max(1.0, self.acc_scale, float(np.max(np.abs(w_model)))))
             bad = ~acc_amb & (np.abs(after - w_model) > tolc)
             if bad.any():
                 p = int(np.argmax(bad))
                 raise Violation("formula:cumulative",
-                                f"{what}: {pname}[{p}] after update() = {after[p]!r}, reference {w_model[p]!r}",
-                                {"trainer": kind, "conn": case["conn"]["kind"], "step": si})
+                                f"{what}: {pname}[{p}] after update() = {after[p]!r}, reference {w_model[p]!r}", info)
             w_model = np.where(acc_amb, after, w_model)  # resync elements judged inside the band
             if pname == "delay":
                 # keep delays inside the connection's documented range (harness-side clamp on both)
@@ -435,30 +503,75 @@ def _run_formula(case, kind):
                 clamped_m = np.where(near, clamped_i, clamped_m)
                 cell.set_delays(clamped_i)
                 w_model = np.where(mask, clamped_m, 0.0)
-            acc[:] = 0
-            acc_abs[:] = 0
-            acc_err[:] = 0
-            acc_amb[:] = False
-            acc_touched[:] = False
-            acc_scale = 0.0
+                self.n_dchg += int(np.any(np.abs(clamped_i - d_impl) > 1e-6))
+            self.w_model = w_model
+            self.acc[:] = 0
+            self.acc_abs[:] = 0
+            self.acc_err[:] = 0
+            self.acc_amb[:] = False
+            self.acc_touched[:] = False
+            self.acc_scale = 0.0
 
-    dd = np.unique(np.round(d0[mask], 9)).size
-    cls = [f"trainer={kind}", f"conn={case['conn']['kind']}", f"dt={'dyadic' if dt_dy else 'other'}",
-           f"B={B}", f"red={red}"]
-    if n_z:
+
+def run_formula(case) -> dict:
+    kind = case["trainer"]
+    with _default_dtype(case.get("f64", False)):
+        return _run_formula(case, kind)
+
+
+def _run_formula(case, kind):
+    red = case["reduction"]
+    red_eff = red or ("sum" if kind in THREE else "mean")  # documented defaults
+    subs = _subcases(case)
+    multi = len(subs) > 1
+    cells: list[_FormulaCell] = []
+    trainer = None
+    for ci, sub in enumerate(subs):
+        # a cell carries its hyperparameters through register_cell when the trainer was built
+        # with decoy defaults or when the cell has hyperparameters of its own
+        ovr = bool(case.get("override", False) or (ci > 0 and "hp" in case["more"][ci - 1]))
+        fc = _FormulaCell(sub, kind, red, red_eff, trainer, "cell" if ci == 0 else f"cell{ci}", ovr)
+        trainer = fc.cell.trainer
+        cells.append(fc)
+    for si, stp in enumerate(case["steps"]):
+        signal, gscale = stp.get("signal", 1.0), stp.get("scale", 1.0)
+        for fc in cells:
+            fc.drive(si)
+        cells[0].cell.train(signal, gscale)      # ONE call serves every registered cell
+        for fc in cells:
+            fc.judge(si, signal, gscale)
+
+    main = cells[0]
+    tot = lambda name: sum(getattr(fc, name) for fc in cells)  # noqa: E731
+    dd = np.unique(np.round(main.d0[main.mask], 9)).size
+    cls = [f"trainer={kind}", f"conn={case['conn']['kind']}", f"dt={'dyadic' if main.dt_dy else 'other'}",
+           f"B={case['B']}", f"red={red}", f"cells={len(cells)}"]
+    if tot("n_z"):
         cls.append("tdelta==0 decisive")
     if dd >= 2:
         cls.append("delays>=2 distinct")
-    if n_amb:
+    if tot("n_amb"):
         cls.append("band")
-    if n_silent:
+    if tot("n_silent"):
         cls.append("silent-side checked")
-    if n_c and n_a:
+    if tot("n_c") and tot("n_a"):
         cls.append("both branches")
     if case.get("f64"):
         cls.append("f64")
-    nt = bool(n_c and n_a and n_silent and n_cmp_nz)
-    return {"nt": nt, "cls": cls, "amb": n_amb, "n_c": n_c, "n_a": n_a, "n_z": n_z, "n_nz": n_cmp_nz}
+    if tot("n_setd"):
+        cls.append("delay re-assigned mid-history")
+    if tot("n_dchg"):
+        cls.append("learned delay changed by update()")
+    if multi and kind in THREE:
+        cls.append("multi-cell three-factor" + (" (tensor reward)" if any(
+            isinstance(s.get("signal"), list) for s in case["steps"]) else ""))
+    if multi:
+        # every cell must itself be exercised, else the case is not counted
+        nt = all(fc.n_nz and (fc.n_c or fc.n_a) for fc in cells) and bool(tot("n_c") and tot("n_a") and tot("n_silent"))
+    else:
+        nt = bool(main.n_c and main.n_a and main.n_silent and main.n_nz)
+    return {"nt": bool(nt), "cls": cls, "amb": tot("n_amb"), "n_c": tot("n_c"), "n_a": tot("n_a"),
+            "n_z": tot("n_z"), "n_nz": tot("n_nz")}
 
 
 # ------------------------------------------------------------------------------ legs: twin / zerodelay
@@ -481,55 +594,80 @@ def _kernel_hp(kind_a: str, hp: dict, g: float = 1.0) -> dict:
     return {"lr_pos": ac * g, "tc_pos": tc, "lr_neg": aa * g, "tc_neg": ta}
 
 
-def _run_twins(case, kind_a: str, kind_b: str, zero: bool) -> dict:
-    hp = _hp(case)
-    dt, B = case["dt"], case["B"]
-    dms_a = case["dmax_steps"]
-    red = case["reduction"]  # explicit on both sides: the defaults differ between the families
-    ins, outs, pairs, pshape, mask = _geometry(case["conn"])
-    P = pairs.shape[0]
-    n_pre, n_post = math.prod(ins), math.prod(outs)
-    three = kind_a in THREE
-    signal, gscale = (case.get("signal", 1.0), case.get("scale", 1.0)) if three else (1.0, 1.0)
-    g = abs(gscale) * signal if three else 1.0
-    d0 = np.zeros(P) if zero else _delays(case, P, dms_a, dt)
-    a = _Cell(case, kind_a, hp, dmax_steps=dms_a, reduction=red, delays=d0,
-              override=case.get("override", False), kw_tensor=case.get("kw_tensor", False))
-    dms_b = case.get("dmax_steps_b", dms_a) if zero else dms_a
-    b = _Cell(case, kind_b, _kernel_hp(kind_a, hp, g), dmax_steps=dms_b, reduction=red,
-              delays=d0, delayed=case.get("delayed", False),
-              override=case.get("override_b", False), kw_tensor=case.get("kw_tensor", False))
-    ls = M.LastSpikes(B, n_pre, n_post)
-    red_eff = red
-    scale = (abs(hp["lr_pos"]) + abs(hp["lr_neg"])) * pairs.shape[1] * (B if red_eff == "sum" else 1) * max(abs(g), 1e-3)
-    n_c = n_a = n_z = n_nz = n_silent = 0
-    for si, stp in enumerate(case["steps"]):
-        pre, post = _bits(stp["pre"], n_pre), _bits(stp["post"], n_post)
-        d_a = a.delays()
-        if zero:
-            check(not np.any(d_a) and not np.any(b.delays()), "setup:zero-delays", "delays must be zero in this leg")
-        a.step(pre, post, signal, gscale, bool_in=case.get("bool_in", True))
-        b.step(pre, post, bool_in=case.get("bool_in", True))
-        ls.step(pre, post)
+class _TwinCell:
+    def __init__(self, sub, kind_a, kind_b, zero, g, red, tr_a, tr_b, name, ovr_a, ovr_b):
+        self.sub, self.zero = sub, zero
+        self.hp = _hp(sub)
+        self.dt, self.B = sub["dt"], sub["B"]
+        self.dms = sub["dmax_steps"]
+        ins, outs, self.pairs, pshape, self.mask = _geometry(sub["conn"])
+        self.P = self.pairs.shape[0]
+        self.n_pre, self.n_post = math.prod(ins), math.prod(outs)
+        self.d0 = np.zeros(self.P) if zero else _delays(sub, self.P, self.dms, self.dt)
+        self.hpk = _kernel_hp(kind_a, self.hp, g)
+        self.a = _Cell(sub, kind_a, self.hp, dmax_steps=self.dms, reduction=red, delays=self.d0,
+                       override=ovr_a, kw_tensor=sub.get("kw_tensor", False), trainer=tr_a, name=name)
+        dms_b = sub.get("dmax_steps_b", self.dms) if zero else self.dms
+        self.b = _Cell(sub, kind_b, self.hpk, dmax_steps=dms_b, reduction=red, delays=self.d0,
+                       delayed=sub.get("delayed", False), override=ovr_b,
+                       kw_tensor=sub.get("kw_tensor", False), trainer=tr_b, name=name)
+        self.ls = M.LastSpikes(self.B, self.n_pre, self.n_post)
+        self.scale = ((abs(self.hp["lr_pos"]) + abs(self.hp["lr_neg"])) * self.pairs.shape[1]
+                      * (self.B if red == "sum" else 1) * max(abs(g), 1e-3))
+        self.red = red
+        self.n_c = self.n_a = self.n_z = self.n_nz = self.n_silent = self.n_mixed = self.n_setd = 0
+
+    def drive(self, si):
+        stp = self.sub["steps"][si]
+        a, b = self.a, self.b
+        if not self.zero:
+            r1 = _redelay(a, self.sub, stp, self.dms)
+            r2 = _redelay(b, self.sub, stp, self.dms)
+            self.n_setd += int(r1 and r2)
+        self.pre, self.post = _bits(stp["pre"], self.n_pre), _bits(stp["post"], self.n_post)
+        self.d_a = a.delays()
+        if self.zero:
+            check(not np.any(self.d_a) and not np.any(b.delays()), "setup:zero-delays", "delays must be zero in this leg")
+        else:
+            check(np.array_equal(self.d_a, b.delays()), "setup:twin-delays", "twin delays differ before a step")
+        a.forward(self.pre, self.post, bool_in=self.sub.get("bool_in", True))
+        b.forward(self.pre, self.post, bool_in=self.sub.get("bool_in", True))
+
+    def judge(self, si):
+        a, b, mask, zero = self.a, self.b, self.mask, self.zero
+        self.ls.step(self.pre, self.post)
         # the reference is used for classification and for the magnitude of the tolerance only
-        td, valid, band = M.tdelta(ls, pairs, dt, d_a)
+        td, valid, band = M.tdelta(self.ls, self.pairs, self.dt, self.d_a)
         c_, a_, z_ = M.branch_counts(np.where(mask[None, :, None], td, np.nan))
-        n_c, n_a, n_z = n_c + c_, n_a + a_, n_z + z_
-        hpk = _kernel_hp(kind_a, hp, g)
-        _, abssum, _ = _model_step("DAKSTDP", hpk, red_eff, td, band, 1.0, 1.0)
-        ga, gb = a.net(), b.net()
-        what = f"step {si}: {kind_a}.{a.pname} vs {kind_b}.{b.pname} ({case['conn']['kind']})"
-        tol = 1e-5 * abssum + 1e-7 * scale + 1e-12
+        self.n_c, self.n_a, self.n_z = self.n_c + c_, self.n_a + a_, self.n_z + z_
+        self.n_mixed += _mixed_elements(td, mask, self.hpk["lr_pos"], self.hpk["lr_neg"])
+        _, abssum, _ = _model_step("DAKSTDP", self.hpk, self.red, td, band, 1.0, 1.0)
+        (pa, na), (pb, nb) = a.parts(), b.parts()
+        ga, gb = pa - na, pb - nb
+        ckind = self.sub["conn"]["kind"]
+        info = {"a": a.kind, "b": b.kind, "conn": ckind, "step": si, "cell": a.name}
+        what = f"step {si}, cell '{a.name}': {a.kind}.{a.pname} vs {b.kind}.{b.pname} ({ckind})"
+        tol = 1e-5 * abssum + 1e-7 * self.scale + 1e-12
+        pre = "zero" if zero else "twin"
         bad = mask & (np.abs(ga - gb) > tol)
         if bad.any():
             p = int(np.argmax(bad))
             raise Violation(
-                "twin:step" if not zero else "zero:step",
+                f"{pre}:step",
                 f"{what}: element {p}: {ga[p]!r} vs {gb[p]!r} (tol {tol[p]:.3g}); t_delta[b][l]={td[:, p, :].tolist()} "
-                f"d={d_a[p]} dt={dt}",
-                {"a": kind_a, "b": kind_b, "conn": case["conn"]["kind"], "step": si})
-        n_nz += int((mask & (np.abs(ga) > 1e-9)).sum())
-        n_silent += int((mask & ~valid.any((0, 2))).sum())
+                f"d={self.d_a[p]} dt={self.dt}", info)
+        # linear batch reductions: the potentiating and the depressing part (what the upper /
+        # lower bounding functions receive) must agree separately as well
+        for nm, xa, xb in (("pos", pa, pb), ("neg", na, nb)):
+            bad = mask & (np.abs(xa - xb) > tol)
+            if bad.any():
+                p = int(np.argmax(bad))
+                raise Violation(
+                    f"{pre}:parts",
+                    f"{what}: {nm} part of element {p}: {xa[p]!r} vs {xb[p]!r} (pos-neg agrees: {ga[p]!r} vs {gb[p]!r}); "
+                    f"t_delta[b][l]={td[:, p, :].tolist()} d={self.d_a[p]} dt={self.dt}", info)
+        self.n_nz += int((mask & (np.abs(ga) > 1e-9)).sum())
+        self.n_silent += int((mask & ~valid.any((0, 2))).sum())
         # apply on both sides, compare the movement of the trained parameters
         pa0, pb0 = a.param(), b.param()
         a.update()
@@ -539,34 +677,65 @@ def _run_twins(case, kind_a: str, kind_b: str, zero: bool) -> dict:
         bad = (np.abs((pa1 - pa0) - (pb1 - pb0)) > tolu)
         if bad.any():
             p = int(np.argmax(bad))
-            raise Violation(
-                "twin:update" if not zero else "zero:update",
-                f"{what}: update() moved element {p} by {pa1[p] - pa0[p]!r} vs {pb1[p] - pb0[p]!r}",
-                {"a": kind_a, "b": kind_b, "conn": case["conn"]["kind"], "step": si})
+            raise Violation(f"{pre}:update",
+                            f"{what}: update() moved element {p} by {pa1[p] - pa0[p]!r} vs {pb1[p] - pb0[p]!r}", info)
         # identical histories: a learned delay must be the same tensor on both sides next step
         if a.pname == "delay":
             if zero:
-                a.set_delays(np.zeros(P))
+                a.set_delays(np.zeros(self.P))
             else:
                 newd = np.clip(pa1, 0.0, a.dmax)
                 a.set_delays(newd)
                 if b.pname == "delay":
                     b.set_delays(newd)
         if b.pname == "delay" and zero:
-            b.set_delays(np.zeros(P))
+            b.set_delays(np.zeros(self.P))
 
-    dd = np.unique(np.round(d0[mask], 9)).size
-    cls = [f"pair={kind_a}~{kind_b}", f"conn={case['conn']['kind']}", f"B={B}", f"red={red}",
-           f"dt={'dyadic' if M.is_dyadic(dt) else 'other'}"]
-    if n_z:
+
+def _run_twins(case, kind_a: str, kind_b: str, zero: bool) -> dict:
+    red = case["reduction"]  # explicit on both sides: the defaults differ between the families
+    three = kind_a in THREE
+    signal, gscale = (case.get("signal", 1.0), case.get("scale", 1.0)) if three else (1.0, 1.0)
+    g = abs(gscale) * signal if three else 1.0
+    subs = _subcases(case)
+    cells: list[_TwinCell] = []
+    tr_a = tr_b = None
+    for ci, sub in enumerate(subs):
+        own = ci > 0 and "hp" in case["more"][ci - 1]
+        tc = _TwinCell(sub, kind_a, kind_b, zero, g, red, tr_a, tr_b, "cell" if ci == 0 else f"cell{ci}",
+                       bool(case.get("override", False) or own), bool(case.get("override_b", False) or own))
+        tr_a, tr_b = tc.a.trainer, tc.b.trainer
+        cells.append(tc)
+    for si in range(len(case["steps"])):
+        for tc in cells:
+            tc.drive(si)
+        cells[0].a.train(signal, gscale)
+        cells[0].b.train()
+        for tc in cells:
+            tc.judge(si)
+
+    main = cells[0]
+    tot = lambda name: sum(getattr(tc, name) for tc in cells)  # noqa: E731
+    dd = np.unique(np.round(main.d0[main.mask], 9)).size
+    cls = [f"pair={kind_a}~{kind_b}", f"conn={case['conn']['kind']}", f"B={case['B']}", f"red={red}",
+           f"dt={'dyadic' if M.is_dyadic(case['dt']) else 'other'}", f"cells={len(cells)}"]
+    if tot("n_z"):
         cls.append("tdelta==0")
     if dd >= 2:
         cls.append("delays>=2 distinct")
-    if n_c and n_a:
+    if tot("n_c") and tot("n_a"):
         cls.append("both branches")
+    if tot("n_mixed"):
+        cls.append("pos&neg on one element")
+        if any(tc.n_mixed and tc.sub["conn"]["kind"] == "conv" for tc in cells):
+            cls.append("pos&neg on one conv element")
+    if main.hp["lr_pos"] * main.hp["lr_neg"] < 0:
+        cls.append("opposite-sign learning rates")
+    if tot("n_setd"):
+        cls.append("delay re-assigned mid-history")
     if zero:
-        cls.append(f"kstdp:delayed={case.get('delayed', False)},dmax_b={case.get('dmax_steps_b', dms_a)}")
-    nt = bool(n_c and n_a and n_nz and n_silent)
+        cls.append(f"kstdp:delayed={case.get('delayed', False)},dmax_b={case.get('dmax_steps_b', case['dmax_steps'])}")
+    nt = bool(tot("n_c") and tot("n_a") and tot("n_nz") and tot("n_silent")) and all(tc.n_nz for tc in cells)
     return {"nt": nt, "cls": cls}
 
 
@@ -584,7 +753,7 @@ def run_zerodelay(case) -> dict:
 # ------------------------------------------------------------------------------ generators
 
 
-def _conn_strategy(tier):
+def _conn_strategy(tier, conv_bias: bool = False):
     small = st.sampled_from
     opts = [
         st.builds(lambda i, o: {"kind": "dense", "in": i, "out": o},
@@ -600,9 +769,12 @@ def _conn_strategy(tier):
                 d = 1
             return {"kind": "conv", "h": h, "w": w, "c": c, "f": f, "kernel": [kh, kw],
                     "stride": [s, s], "padding": [p, p], "dilation": [d, d]}
-        opts.append(st.builds(mk, small([2, 3, 4]), small([2, 3]), small([1, 2]), small([1, 2]),
-                              small([1, 2, 2]), small([1, 2]), small([1, 1, 2]), small([0, 0, 1]),
-                              small([1, 1, 2])))
+        conv = st.builds(mk, small([2, 3, 4]), small([2, 3]), small([1, 2]), small([1, 2]),
+                         small([1, 2, 2]), small([1, 2]), small([1, 1, 2]), small([0, 0, 1]),
+                         small([1, 1, 2]))
+        opts.append(conv)
+        if conv_bias:
+            opts.append(conv)
     return st.one_of(*opts)
 
 
@@ -612,8 +784,9 @@ def _n_of(conn):
 
 
 @st.composite
-def _history(draw, n_pre, n_post, B, tmax, three, vector_ok):
-    T = draw(st.integers(3, tmax))
+def _history(draw, n_pre, n_post, B, tmax, three, vector_ok, T=None, setd=False):
+    if T is None:
+        T = draw(st.integers(3, tmax))
     sparse_pre = draw(st.booleans())
     sparse_post = draw(st.booleans())
     late_post = draw(st.integers(0, 3))  # steps at the start in which no post neuron fires
@@ -635,18 +808,38 @@ def _history(draw, n_pre, n_post, B, tmax, three, vector_ok):
             else:
                 stp["signal"] = draw(st.sampled_from(SIGNALS))
             stp["scale"] = draw(st.sampled_from(SCALES))
+        if setd and t > 0 and draw(st.integers(0, 5)) == 0:
+            # the connection's delay parameter is re-bound (connection.delay = tensor) before this step
+            stp["setd"] = draw(st.lists(st.integers(0, 48), min_size=1, max_size=6))
+            stp["setd_mode"] = draw(st.sampled_from(["grid", "grid", "quarter", "real"]))
         steps.append(stp)
     return steps
 
 
-def _common(draw, tier, zero_delays=False):
-    conn = draw(_conn_strategy(tier))
+def _delay_fields(draw, zero_delays):
+    if zero_delays:
+        return {"dmax_steps": draw(st.sampled_from([0, 0, 1, 3])), "dmode": "zero", "draws": [0]}
+    return {"dmax_steps": draw(st.sampled_from([0, 1, 2, 3, 3, 4, 6])),
+            "dmode": draw(st.sampled_from(["grid", "grid", "grid", "quarter", "real", "zero"])),
+            "draws": draw(st.lists(st.integers(0, 48), min_size=1, max_size=8))}
+
+
+def _lrs(draw, opposite_bias=False):
+    lp, ln = draw(st.sampled_from(LRS)), draw(st.sampled_from(LRS))
+    if opposite_bias and draw(st.booleans()) and lp * ln > 0:
+        ln = -ln
+    return lp, ln
+
+
+def _common(draw, tier, zero_delays=False, conv_bias=False, opposite_bias=False):
+    conn = draw(_conn_strategy(tier, conv_bias))
     B = draw(st.sampled_from([1, 2, 2, 3]))
     dyadic = draw(st.integers(0, 9)) < 7
     dt = draw(st.sampled_from(DYADIC_DT if dyadic else OTHER_DT))
+    lp, ln = _lrs(draw, opposite_bias)
     case = {
         "conn": conn, "B": B, "dt": dt,
-        "lr_pos": draw(st.sampled_from(LRS)), "lr_neg": draw(st.sampled_from(LRS)),
+        "lr_pos": lp, "lr_neg": ln,
         "tc_pos": draw(st.sampled_from(TCS)), "tc_neg": draw(st.sampled_from(TCS)),
         "inplace": draw(st.booleans()),
         "override": draw(st.integers(0, 3)) == 0,
@@ -654,15 +847,31 @@ def _common(draw, tier, zero_delays=False):
         "bool_in": draw(st.integers(0, 3)) > 0,
         "f64": draw(st.integers(0, 7)) == 0,
         "wseed": draw(st.integers(0, 1000)),
+        "upd_via": draw(st.sampled_from(["connection", "connection", "layer"])),
     }
-    if zero_delays:
-        case["dmax_steps"] = draw(st.sampled_from([0, 0, 1, 3]))
-        case["dmode"], case["draws"] = "zero", [0]
-    else:
-        case["dmax_steps"] = draw(st.sampled_from([0, 1, 2, 3, 3, 4, 6]))
-        case["dmode"] = draw(st.sampled_from(["grid", "grid", "grid", "quarter", "real", "zero"]))
-        case["draws"] = draw(st.lists(st.integers(0, 48), min_size=1, max_size=8))
+    case.update(_delay_fields(draw, zero_delays))
     return case
+
+
+def _more_cells(draw, tier, case, zero_delays, T, setd, kstdp=False):
+    """0-2 further cells registered on the same trainer: own connection, delays, weights, history and
+    (half of the time) own hyperparameters."""
+    k = draw(st.sampled_from([0, 0, 0, 1, 1, 2]))
+    more = []
+    for _ in range(k):
+        conn = draw(_conn_strategy(tier))
+        extra = {"conn": conn, "wseed": draw(st.integers(0, 1000))}
+        extra.update(_delay_fields(draw, zero_delays))
+        if kstdp:
+            extra["dmax_steps"] = draw(st.sampled_from([None, 0, 2]))
+        if draw(st.booleans()):
+            lp, ln = _lrs(draw)
+            extra["hp"] = {"lr_pos": lp, "lr_neg": ln, "tc_pos": draw(st.sampled_from(TCS)),
+                           "tc_neg": draw(st.sampled_from(TCS))}
+        n_pre, n_post = _n_of(conn)
+        extra["steps"] = draw(_history(n_pre, n_post, case["B"], T, False, False, T=T, setd=setd))
+        more.append(extra)
+    return more
 
 
 @st.composite
@@ -678,13 +887,17 @@ def formula_case(draw, tier="quick"):
     n_pre, n_post = _n_of(case["conn"])
     tmax = 12 if tier == "quick" else 36
     vector_ok = three and case["reduction"] in (None, "sum")
-    case["steps"] = draw(_history(n_pre, n_post, case["B"], tmax, three, vector_ok))
+    setd = kind != "KSTDP"
+    case["steps"] = draw(_history(n_pre, n_post, case["B"], tmax, three, vector_ok, setd=setd))
+    more = _more_cells(draw, tier, case, kind == "KSTDP", len(case["steps"]), setd, kstdp=(kind == "KSTDP"))
+    if more:
+        case["more"] = more
     return case
 
 
 @st.composite
 def twin_case(draw, tier="quick"):
-    case = _common(draw, tier)
+    case = _common(draw, tier, conv_bias=True, opposite_bias=True)
     case["pair"] = draw(st.sampled_from(["w", "w", "d", "d", "mw", "md"]))
     case["reduction"] = draw(st.sampled_from(["sum", "mean"]))
     case["override_b"] = draw(st.integers(0, 3)) == 0
@@ -693,13 +906,16 @@ def twin_case(draw, tier="quick"):
         case["scale"] = draw(st.sampled_from(SCALES))
     n_pre, n_post = _n_of(case["conn"])
     tmax = 10 if tier == "quick" else 30
-    case["steps"] = draw(_history(n_pre, n_post, case["B"], tmax, False, False))
+    case["steps"] = draw(_history(n_pre, n_post, case["B"], tmax, False, False, setd=True))
+    more = _more_cells(draw, tier, case, False, len(case["steps"]), True)
+    if more:
+        case["more"] = more
     return case
 
 
 @st.composite
 def zero_case(draw, tier="quick"):
-    case = _common(draw, tier, zero_delays=True)
+    case = _common(draw, tier, zero_delays=True, conv_bias=True, opposite_bias=True)
     case["first"] = draw(st.sampled_from(ZERO_FIRST))
     case["reduction"] = draw(st.sampled_from(["sum", "mean"]))
     case["override_b"] = draw(st.integers(0, 3)) == 0
@@ -712,6 +928,9 @@ def zero_case(draw, tier="quick"):
     n_pre, n_post = _n_of(case["conn"])
     tmax = 10 if tier == "quick" else 30
     case["steps"] = draw(_history(n_pre, n_post, case["B"], tmax, False, False))
+    more = _more_cells(draw, tier, case, True, len(case["steps"]), False)
+    if more:
+        case["more"] = more
     return case
 
 
@@ -760,7 +979,9 @@ LEGS = [
         rule="history in which both the causal (t_delta >= 0) and the anti-causal branch are taken on "
              "decisive (outside-band) pairs, at least one parameter element is checked to stay "
              "exactly unchanged while a side of its pairs is still silent, and at least one compared "
-             "element has a non-zero documented change; distinct by SHA-1 of the case",
+             "element has a non-zero documented change; with 2-3 cells on the one trainer (about 40 % of "
+             "the cases; one trainer call per step serves all) every cell must itself receive a compared "
+             "non-zero change; distinct by SHA-1 of the case",
     ),
     Leg(
         name="small", run=run_small, enumerate=_small_cases,
@@ -775,14 +996,15 @@ LEGS = [
         quick=150, thorough=1500, quick_shards=4, thorough_shards=4, nt_floor=0.3,
         rule="twin cells (dedicated rule vs delay-adjusted kernel rule with the exponential kernels) "
              "whose common history takes both branches, produces a non-zero update and contains a "
-             "step with a still-silent side",
+             "step with a still-silent side; pos - neg, the potentiating part and the depressing part "
+             "are compared separately; 1-3 cell pairs per trainer pair",
     ),
     Leg(
         name="zerodelay", run=run_zerodelay, strategy=lambda tier: zero_case(tier),
         quick=150, thorough=1500, quick_shards=4, thorough_shards=4, nt_floor=0.3,
         rule="all delays zero; delay-adjusted rule vs plain KernelSTDP (exponential kernels) on twin "
              "cells whose common history takes both branches, produces a non-zero update and "
-             "contains a step with a still-silent side",
+             "contains a step with a still-silent side; pos - neg, pos and neg compared separately",
     ),
 ]
 
@@ -792,7 +1014,11 @@ ASSUMPTIONS = [
     "batch reductions torch.sum / torch.mean (and the documented defaults); per-sample reward "
     "tensors only with the (default) sum reduction, as the trainers' docs require",
     "delays of the delay-learning variants are clamped into [0, delayedby] by the harness after "
-    "every update() (on implementation and reference alike)",
+    "every update() (on implementation and reference alike) and re-bound with connection.delay = tensor; "
+    "in 1/6 of the later steps the delay parameter of any delay-adjusted cell is re-assigned to fresh values; "
+    "updates go through connection.update() or layer.update()",
+    "cells that share a trainer share batch size, step time and the reward signal; connection, delays, "
+    "weights, history and (half of the time) hyperparameters are their own",
     "pairs with |t_delta| inside a float-rounding band (non-dyadic dt or delay) are not judged "
     "(counted ambiguous); with dyadic dt and delays t_delta == 0 is decisive",
     "KernelSTDP is exercised with all delays zero only (the property makes no claim about its "
